@@ -6,14 +6,16 @@ C08 compile succeeds inside the supported kind, the result is well-formed (uniqu
 C09 the compiled problem's kind is contained in the declared resulting kind (also along pipelines).
 """
 from rtc import compcheck
+from contracts import compiler_kernels as _K
 
-UNITS = []
-USES_THEORY = False
+UNITS = _K.units("C07")
+USES_THEORY = True
+TRUSTED = list(_K.TRUSTED)
 
 
 def bounded(tier, seed):
     return compcheck.run(tier, seed, ["C07"])["C07"]
 
 
-LEVEL = "exploration"
-EXPLANATION = __doc__
+LEVEL = "other"
+EXPLANATION = __doc__ + "\n\nProved kernels (shared plumbing, contracts/compiler_kernels.py):\n" + _K.__doc__
